@@ -77,7 +77,7 @@ class C07(P.Property):
                 edb_writes.append((rec["site"], rec["kind"]))
         run.seam.on_event = on_disk
         try:
-            with world.Watchdog(120):
+            with world.Watchdog(300):
                 try:
                     if not res.violations:
                         run.sim.run(self._server_branch(run, plan, out, res.violations))
